@@ -23,6 +23,7 @@
 #include <hgraph/runtime/lifecycle_observer.h>
 #include <hgraph/runtime/runtime.h>
 #include <hgraph/types/metadata/type_registry.h>
+#include <hgraph/types/static_node.h>
 #include <hgraph/types/static_schema.h>
 #include <hgraph/types/type_resolution.h>
 #include <hgraph/util/verif_hook.h>
@@ -143,6 +144,7 @@ namespace
     struct World
     {
         int                              policy{0};  // 0 queue, 1 burst, 2 conflating
+        int                              vkind{0};   // 0 scalar TS<int>, 1 collection TSD<str, TS<int>> (queue / conflating)
         std::size_t                      cap{0};
         std::vector<PushSourceSender>    senders;    // one per start (epoch)
         std::vector<Delivery>            deliveries;
@@ -174,12 +176,15 @@ namespace
     {
         const auto *ts_int   = ts_type<TS<Int>>();
         const auto *ts_tuple = ts_type<TS<HomogeneousTuple<Int>>>();
-        const auto *out_ts   = w.policy == 1 ? ts_tuple : ts_int;
+        auto       &registry = TypeRegistry::instance();
+        const auto *tsd_int  = registry.tsd(registry.register_scalar<Str>("str"), registry.ts(registry.register_scalar<Int>("int")));
+        if (w.vkind == 1 && w.policy == 1) { w.policy = 0; }  // burst needs a tuple output
+        const auto *out_ts   = w.vkind == 1 ? tsd_int : (w.policy == 1 ? ts_tuple : ts_int);
         const auto *in_schema = hgraph::testing::single_input_schema(*out_ts);
 
-        PushSourcePolicy policy = w.policy == 0   ? make_push_source_queue_policy(*ts_int, w.cap)
+        PushSourcePolicy policy = w.policy == 0   ? make_push_source_queue_policy(*out_ts, w.cap)
                                   : w.policy == 1 ? make_push_source_burst_policy(*ts_tuple, w.cap)
-                                                  : make_push_source_conflating_policy(*ts_int);
+                                                  : make_push_source_conflating_policy(*out_ts);
         PushSourceNodeExtension extension;
         World                  *pw = &w;
         extension.on_start = [pw](PushSourceSender sender, const NodeView &, DateTime) {
@@ -193,7 +198,9 @@ namespace
         sink_schema.node_kind    = NodeKind::Sink;
         NodeCallbacks sink_cb;
         const bool    tuple = w.policy == 1;
-        sink_cb.evaluate = [pw, tuple](const NodeView &view, DateTime t) {
+        const bool    dict  = w.vkind == 1;
+        sink_cb.evaluate = [pw, tuple, dict](const NodeView &view, DateTime t) {
+            if (dict) { return; }
             auto     root   = view.input(t);
             auto     bundle = root.as_bundle();
             auto     in     = bundle[0];
@@ -239,14 +246,47 @@ namespace
     // ------------------------------------------------------------------ mode 1: sequential histories
     // result codes of a send: 1 accepted, 0 refused/failed, 2 logic_error (blocking wait on the
     // evaluation thread), 3 blocked (still waiting), 4 other exception, 8 skipped by the harness.
-    i64 do_send(const PushSourceSender &s, i64 v, bool blocking)
+    // collection deltas of the dict vocabulary: v >= 0 sets key v / 100 to v % 100; v == -1 the empty delta;
+    // v <= -10 removes key (-v - 10) (lenient: removing an absent key is a no-op)
+    std::string dict_key(i64 k) { return "k" + std::to_string(k); }
+    Value make_value(int vkind, i64 v)
+    {
+        if (vkind == 0) { return Value{Int{v}}; }
+        using namespace std::string_literals;
+        if (v >= 0) { return dict_delta<Str, TS<Int>>({{dict_key(v / 100), Int{v % 100}}}); }
+        if (v <= -10) { return dict_delta<Str, TS<Int>>({}, {dict_key(-v - 10)}); }
+        return dict_delta<Str, TS<Int>>({});
+    }
+
+    i64 do_send(const PushSourceSender &s, i64 v, bool blocking, int vkind = 0)
     {
         try
         {
-            return blocking ? (s.send_blocking(Int{v}) ? 1 : 0) : (s.try_send(Int{v}) ? 1 : 0);
+            return blocking ? (s.send_blocking(make_value(vkind, v)) ? 1 : 0) : (s.try_send(make_value(vkind, v)) ? 1 : 0);
         }
         catch (const std::logic_error &) { return 2; }
-        catch (const std::exception &) { return 4; }
+        catch (const std::exception &e)
+        {
+            std::fprintf(stderr, "send: %s\n", e.what());
+            return 4;
+        }
+    }
+
+    // the dict output's current value as key value key value ... (keys ascending)
+    Line dict_state(const GraphView &graph, DateTime t)
+    {
+        Line l;
+        auto o = graph.node_at(0).output(t);
+        if (!o.valid()) { return l; }
+        Value                copy{o.value()};
+        std::map<i64, i64> m;
+        for (const auto &[key, value] : copy.view().as_map())
+        {
+            const auto &ks = key.template checked_as<Str>();
+            m[std::atoll(ks.c_str() + 1)] = value.template checked_as<Int>();
+        }
+        for (auto &[k, x] : m) { l.push_back(k); l.push_back(x); }
+        return l;
     }
 
     void run_sequential(const hgv::Case &c, hgv::Out &out)
@@ -254,6 +294,8 @@ namespace
         World w;
         w.policy = (int)c[0][1];
         w.cap    = (std::size_t)c[0][2];
+        w.vkind  = c[0].size() > 4 && c[0][4] == 1 ? 1 : 0;
+        const int         vkind = w.vkind;
         const std::size_t nprod = (std::size_t)std::max<i64>(1, c[0][3]);
         Obs               obs{&w};
         const i64         t0 = 1'000'000;
@@ -306,16 +348,16 @@ namespace
                 if (h == 0 && !w.senders.empty()) { s = w.senders.back(); }
                 else if (h == 1 && w.senders.size() >= 2) { s = w.senders[w.senders.size() - 2]; }
                 i64 r;
-                if (p <= 0 || (std::size_t)p > nprod) { r = do_send(s, v, blocking); }
+                if (p <= 0 || (std::size_t)p > nprod) { r = do_send(s, v, blocking, vkind); }
                 else if (blocked && (blocked_prod == p || would_block(blocking, h))) { r = 8; }
                 else
                 {
                     if (!workers[p]) { workers[p] = std::make_unique<Worker>(); }
                     auto progress = std::make_shared<std::atomic<int>>(0);
-                    auto fut      = workers[p]->submit([s, v, blocking, progress] {
+                    auto fut      = workers[p]->submit([s, v, blocking, progress, vkind] {
                         tl_progress = progress.get();
                         progress->store(1, std::memory_order_release);
-                        const i64 res = do_send(s, v, blocking);
+                        const i64 res = do_send(s, v, blocking, vkind);
                         tl_progress = nullptr;
                         return res;
                     });
@@ -372,7 +414,11 @@ namespace
                     if (o.valid() && o.last_modified_time() == dt(now))
                     {
                         d = Line{5, now - t0};
-                        if (w.policy == 1)
+                        if (vkind == 1)
+                        {
+                            for (i64 x : dict_state(graph, dt(now))) { d->push_back(x); }
+                        }
+                        else if (w.policy == 1)
                         {
                             auto list = o.value().as_list();
                             for (std::size_t i = 0; i < list.size(); ++i) { d->push_back(list[i].checked_as<Int>()); }
